@@ -75,9 +75,9 @@ def run_cases(exe, cases, nproc=16):
 
 def parse_rep(out):
     for ln in out:
-        m = re.match(r"REP R (-?\d+) E (-?\d+) EL (-?\d+) NF (\d+) DIRTY (\d+) LMAX (-?\d+) LEND (-?\d+) PROBE (\d+) INT (\d+)", ln)
+        m = re.match(r"REP R (-?\d+) E (-?\d+) EL (-?\d+) NF (\d+) DIRTY (\d+) LMAX (-?\d+) LEND (-?\d+) PROBE (\d+) INT (\d+)(?: FL (\d+))?", ln)
         if m:
-            return dict(zip(["ret", "err", "errl", "nf", "dirty", "lmax", "lend", "probe", "internal"], map(int, m.groups())))
+            return dict(zip(["ret", "err", "errl", "nf", "dirty", "lmax", "lend", "probe", "internal", "fl"], [int(x or 0) for x in m.groups()]))
     return None
 
 
@@ -113,11 +113,12 @@ TSIZE = {0: 0, 1: 1, 0x21: 1, 0x28: 8, 0x88: 8, 0x110: 16, 0x22: 2, 0x24: 4}
 FIELDS = ["raw", "r16", "rc", "lincom", "linterp", "bit", "sbit", "phase", "mult", "div", "recip", "poly", "win",
           "mplex", "const", "carray", "indir", "string", "sarray", "sindir", "al", "lcbad", "raw/meta", "raw/mstr",
           "raw/mph", "sraw", "sph", "sconst", "scarray", "xph", "xlc", "xbit", "INDEX", "raw.i", "rc.m", "const.i", "phase.r",
-          "P_praw", "P_plint", "P_pph", "P_pbit", "P_plc", "P_ppoly", "P_pconst", "P_pmult"]
+          "P_praw", "P_plint", "P_pph", "P_pbit", "P_plc", "P_ppoly", "P_pconst", "P_pmult",
+          "kc", "kca", "ab", "ac", "ad", "kalias", "kindir", "kc/mv", "kzz", "nofile", "skc"]
 AFFIXED = ["P_plint", "P_pph", "P_pbit", "P_plc", "P_ppoly", "P_pmult", "P_praw", "P_pconst"]
 BADFIELDS = ["nosuch", "~", "@L5000", "raw.z", "a%20b", "raw/nosuch", "raw/meta/x", ".", "/"]
 NEWNAMES = ["newf", "raw", "~", "@L5000", "a/b", "raw/newm", "INDEX", "new.f", "ne#w", "nosuch/x", "al"]
-INFIELDS = ["raw", "nosuch", "~", "carray", "@L5000", "r16", "sarray", "lcbad", "P_praw", "praw"]
+INFIELDS = ["raw", "nosuch", "~", "carray", "@L5000", "r16", "sarray", "lcbad", "P_praw", "praw", "kc", "kca<1>"]
 POOL = {
     # (no 2^31..2^40 offsets: a valid gd_putdata there legitimately creates a multi-gigabyte sparse file)
     "l": [0, 1, -1, -2, 5, 49, 50, 51, 1 << 61, 1 << 62, (1 << 62) + 1, I63 - 1, I63 - 2, -I63, -I63 + 1, -(1 << 62), (I63 - 1) // 2 + 1],
@@ -131,7 +132,7 @@ POOL = {
     "x": [0, 1, 2, 4, 8, 15, 0xFFFFFFFF, 0x1000000, 0x2000000],
 }
 BASE = {"l": 0, "z": 1, "u": 0, "i": 1, "t": 0x88, "f": 0, "d": "1.5", "x": 0}
-SPECS = ["newf%20RAW%20UINT8%201", "newc%20CONST%20UINT8%201", "bad%20line", "~", "@L70000", "raw%20RAW%20UINT8%201",
+SPECS = ["ab%20PHASE%20raw%20kc", "ac%20RAW%20UINT8%20skc", "ad%20BIT%20raw%20kca<2>%20kc", "recip%20RECIP%20raw%20kc", "newf%20RAW%20UINT8%201", "newc%20CONST%20UINT8%201", "bad%20line", "~", "@L70000", "raw%20RAW%20UINT8%201",
          "nb%20BIT%20raw%2063%202", "nb%20BIT%20raw%200%2065", "/INCLUDE%20x", "np%20PHASE%20raw%2099999999999999999999",
          "nl%20LINCOM%204%20raw%201%200", "nr%20RAW%20UINT8%200", "nr%20RAW%20UINT8%204294967296", "META%20raw%20m2%20CONST%20UINT8%201"]
 # ops never driven by the generic sweep (reasons in notes/C10.md)
@@ -161,12 +162,16 @@ KIND_FIELD = {"alter_linterp": ["linterp", "P_plint"], "alter_phase": ["phase", 
               "alter_window": ["win"], "alter_multiply": ["mult", "P_pmult"], "alter_divide": ["div"], "alter_indir": ["indir"],
               "alter_sindir": ["sindir"], "alter_const": ["const", "P_pconst"], "alter_carray": ["carray"], "alter_sarray": ["sarray"],
               "alter_raw": ["rc", "P_praw"], "alter_entry": ["phase", "P_plint"], "rename": ["phase", "P_pph", "raw/meta"],
-              "move": ["phase", "P_pph", "sconst"], "delete": ["const", "P_pconst", "raw"]}
+              "move": ["phase", "P_pph", "sconst", "kc"], "delete": ["const", "P_pconst", "raw", "kc", "kca", "kc/mv", "raw/meta", "carray"]}
 
 
 def arg_pool(op, sig, k):
     """values for argument k of op"""
     c = sig[k]
+    if op == "delete" and k == 1:
+        return list(range(16)) + [0xFFFFFFFF]       # every combination of GD_DEL_META/DATA/DEREF/FORCE
+    if op == "rename" and k == 2:
+        return list(range(16)) + [0x10, 0xFFFFFFFF]
     # calls that would legitimately rewrite data files to astronomically many samples are not made
     if op == "alter_raw" and k == 2:
         return [0, 1, 2, 3, 1 << 32]
@@ -306,6 +311,8 @@ def crash_key(op, text, args=()):
         return "C10/alter_linterp/stale-lut-after-table-change"
     if op in ("alter_carray", "alter_sarray") and args and int(args[-1]) >= (1 << 60):
         return "C10/%s/size-overflow" % op
+    if op in ("alter_spec", "malter_spec") and "_GD_ParseFieldSpec" in text and "SEGV" in text:
+        return "C10/ub/load-of-null-pointer-of-type-c/parse.c"     # the same NULL in_cols[1], seen without UBSan's null check
     if op in ("rename", "move") and args and (int(args[2]) & 0x10):
         return "C10/rename/flag-0x10-aliases-GD_REN_META"
     for fn, key in (("gd_get_carray_slice", "C10/slice-wrap/gd_get_carray_slice"), ("_GD_PutCarraySlice", "C10/slice-wrap/gd_put_carray_slice"),
@@ -728,6 +735,9 @@ def main():
         elif rp["dirty"]:
             viol.setdefault(internal_key(c["op"]) if rp["internal"] else "C10/dirty-fail/%s/E%d" % (c["op"], rp["err"]), []).append(
                 (what, c, "%d failing calls (error %d) changed the observable snapshot" % (rp["dirty"], rp["err"])))
+        elif rp.get("fl"):
+            viol.setdefault("C10/flush-after-failed/%s/E%d" % (c["op"], rp["err"]), []).append(
+                (what, c, "all %d calls failed (error %d), yet a following gd_metaflush rewrote files of the dirfile: a failed call left a fragment marked modified" % (REPS, rp["err"])))
         elif rp["nf"] == REPS and rp["probe"]:
             viol.setdefault("C10/future/%s/E%d" % (c["op"], rp["err"]), []).append(
                 (what, c, "after the failing calls (error %d) a valid gd_getdata on another field fails" % rp["err"]))
